@@ -200,6 +200,7 @@ void generate(uint64_t seed, const Str& profile, Desc& d, bool exceptions) {
                 else if (w2 < 8) o.kind = K_DIE_ABORT;
                 else o.kind = K_DIE_STOP;
                 T.ops.insert(T.ops.begin() + (long)at, o);
+                if (o.kind == K_DIE_STOP && faults.chance(1, 3)) { Op o2 = o; o2.d = ++opLine; T.ops.insert(T.ops.begin() + (long)at, o2); }     // the child stops twice
             }
             if (faults.chance(1, 4)) { Op o; o.kind = K_W_EINTR; o.phase = PH_PROC; o.a = faults.chance(1, 3) ? faults.range(28, 36) : faults.range(1, 35); T.ops.push_back(o); }
             if (faults.chance(1, 25)) { Op o; o.kind = K_FORK_FAIL; o.phase = PH_PROC; T.ops.push_back(o); }
@@ -242,6 +243,7 @@ void generate(uint64_t seed, const Str& profile, Desc& d, bool exceptions) {
         int np = (int)world.range(1, world.chance(1, 3) ? 8 : 3);
         bool removals = world.chance(1, 3);
         d.p["remove_rev"] = (int64_t)world.below(2);
+        d.p["remove_absent"] = world.chance(1, 3) ? (int64_t)world.range(1, 3) : 0;     // removals of a name that is not (or no longer) installed: nothing may change
         for (int p = 0; p < np; p++) {
             Group P; P.tag = "plugin"; P.args.push_back(world.chance(5, 6)); P.args.push_back(removals && world.chance(1, 3)); P.sargs.push_back(sfmt("plug%d", p));
             int n = (int)world.range(0, 3);
